@@ -482,7 +482,9 @@ reg_range_touches(RegisterEntry *e, RegisterAddress addr, RegisterOffset n)
         return -1;
     }
 
-    if ((addr + n) <= e->address) {
+    /* addr + n may reach beyond the top of the address space: compare
+     * distances instead of sums. */
+    if (e->address >= addr && (e->address - addr) >= n) {
         return 1;
     }
 
@@ -1825,7 +1827,12 @@ register_foreach_in(RegisterTable *t,
         return rv;
     }
 
-    return reg_iterate(t, startreg.handle, addr + off - 1u, f, arg);
+    /* The last address of the range, limited to the top of the address space. */
+    const RegisterAddress end = ((off - 1u) > (REGISTER_ADDRESS_MAX - addr))
+        ? REGISTER_ADDRESS_MAX
+        : (addr + off - 1u);
+
+    return reg_iterate(t, startreg.handle, end, f, arg);
 }
 
 RegisterEntry *
